@@ -71,6 +71,15 @@ class Engine:
     def check(self, *extra):
         t = time.time()
         r = self.s.check(*extra)
+        if r == z3.unknown:
+            # the incremental core gave up (non-linear reals): retry once with a fresh solver, which runs
+            # z3's full tactic pipeline (nlsat) on path condition + query
+            f = z3.Solver()
+            f.set("timeout", self.timeout_ms)
+            f.add(*self.s.assertions())
+            f.add(*extra)
+            r = f.check()
+            self.nfresh = getattr(self, "nfresh", 0) + 1
         self.tq += time.time() - t
         self.nq += 1
         return r
